@@ -55,7 +55,7 @@ class decode_line_program:
                               " prologue_end=state.prologue_end, epilogue_begin=state.epilogue_begin, isa=state.isa,"
                               " discriminator=state.discriminator)"},
             step=[_st(x) for x in [
-                "state.address == next_address(@H, @R, @B, @O)",
+                "state.address == next_address(@H, @R, @B, @O, self.structs.address_size)",
                 "state.op_index == next_op_index(@H, @R, @B, @O)",
                 "state.line == next_line(@H, @R, @B, @O)",
                 "state.file == next_file(@H, @R, @B, @O)",
@@ -70,7 +70,7 @@ class decode_line_program:
                 # rows
                 "emits(@H, @B, @O) == (len(entries) > $len0 and entries[len(entries) - 1].state is not None)"
                 " or not (is_special(@H, @B, @O) or is_ext(@H, @B, @O) or op8(@B, @O) <= 12)",
-                "not emits(@H, @B, @O) or entries[len(entries) - 1].state.address == row_address(@H, @R, @B, @O)",
+                "not emits(@H, @B, @O) or entries[len(entries) - 1].state.address == row_address(@H, @R, @B, @O, self.structs.address_size)",
                 "not emits(@H, @B, @O) or entries[len(entries) - 1].state.op_index == row_op_index(@H, @R, @B, @O)",
                 "not emits(@H, @B, @O) or entries[len(entries) - 1].state.line == row_line(@H, @R, @B, @O)",
                 "not emits(@H, @B, @O) or entries[len(entries) - 1].state.file == @R.file",
